@@ -291,7 +291,7 @@ def dag_cubes(grid):
 
 def ns_pivot_ob(tier):
     q = tier == "quick"
-    grid = [(3, 3), (4, 4), (4, 5)] if q else [(3, 3), (4, 4), (4, 5), (5, 5), (5, 6)]
+    grid = [(3, 3), (4, 4), (4, 5)] if q else [(3, 3), (4, 4), (4, 5), (5, 5)]
     cubes = [dict(c, SYMDELTA=sd) for c in dag_cubes(grid) for sd in (0, 1) if sd == 0 or (c["N"], c["M"]) in ([(3, 3)] if q else [(3, 3), (4, 4)])]
     return dict(name="ns-pivot-lemma", pkg="internal/phase2", func="Harness_NS_Pivot", consts={}, cubes=cubes, enctimeout=300, qtimeout=120,
                 bounds="one network-simplex pivot from an ARBITRARY feasible tight spanning tree: all canonical connected DAGs with (N,M) in %s (parallel edges "
@@ -317,7 +317,7 @@ def ns_whole_obs(tier, which):
 
 def ns_balance_ob(tier):
     q = tier == "quick"
-    grid = [(3, 3), (4, 4)] if q else [(3, 3), (4, 4), (4, 5), (5, 5), (5, 6)]
+    grid = [(3, 3), (4, 4)] if q else [(3, 3), (4, 4), (4, 5), (5, 5)]
     return dict(name="ns-balance-lemma", pkg="internal/phase2", func="Harness_NS_Balance", consts={}, cubes=dag_cubes(grid), enctimeout=300, qtimeout=120,
                 bounds="normalize + vbalance from an ARBITRARY feasible layering: all canonical connected DAGs with (N,M) in %s as cubes; symbolic: the layer of every "
                        "node in -3..2N, assumed feasible" % grid)
@@ -428,7 +428,7 @@ def C14(tier):
         obs.append(dict(name="phase1-%s-symbolic-tail" % an, pkg="internal/phase1", func="Harness_Phase1", consts=dict(base, ALG=alg),
                         cubes=cubes, bounds="every canonical prefix of M-1 edges as a cube, last edge symbolic, (N,M) in %s" % tail,
                         enctimeout=300, qtimeout=120, maporder="symbolic"))
-    grid = [(2, 2), (2, 3), (3, 2), (3, 3), (3, 4), (4, 3), (4, 4)] if q else [(2, 2), (2, 3), (2, 4), (2, 5), (3, 2), (3, 3), (3, 4), (3, 5), (4, 3), (4, 4), (4, 5), (5, 4), (5, 5)]
+    grid = [(2, 2), (2, 3), (3, 2), (3, 3), (3, 4), (4, 3), (4, 4), (5, 5)] if q else [(2, 2), (2, 3), (2, 4), (2, 5), (3, 2), (3, 3), (3, 4), (3, 5), (4, 3), (4, 4), (4, 5), (5, 4), (5, 5), (5, 6)]
     for alg, an in ((1, "dfs"), (0, "greedy")):
         cubes = [c for (n, m) in grid for c in phase1_cubes(n, m)]
         obs.append(dict(name="phase1-%s-cubes" % an, pkg="internal/phase1", func="Harness_Phase1", consts=dict(base, ALG=alg),
